@@ -31,6 +31,7 @@ const (
 	dvalFlagGlobal  = 2 // resolver = protoregistry.GlobalFiles (else nil)
 	dvalFlagNilify  = 4 // replace empty nested messages by nil pointers
 	dvalFlagNilFile = 8 // pass a nil *FileDescriptorProto
+	dvalFlagMulti   = 16 // input is a FileDescriptorSet: dependencies first, subject last
 )
 
 type dvalInput struct {
@@ -151,6 +152,29 @@ func dvalRunOne(flags byte, raw []byte) (out dvalOutcome) {
 			out = dvalOutcome{"panic", fmt.Sprint(r)}
 		}
 	}()
+	if flags&dvalFlagMulti != 0 {
+		// raw = FileDescriptorSet: every file but the last is registered (in order) in a fresh
+		// local registry, which is the resolver for the last one (the subject)
+		set := &descriptorpb.FileDescriptorSet{}
+		if err := (proto.UnmarshalOptions{AllowPartial: true}).Unmarshal(raw, set); err != nil || len(set.File) == 0 {
+			return dvalOutcome{"err", "harness: cannot decode file set"}
+		}
+		reg := &protoregistry.Files{}
+		for _, dep := range set.File[:len(set.File)-1] {
+			fd, err := protodesc.NewFile(dep, reg)
+			if err != nil {
+				return dvalOutcome{"err", "harness: dependency rejected: " + err.Error()}
+			}
+			if err := reg.RegisterFile(fd); err != nil {
+				return dvalOutcome{"err", "harness: dependency not registered: " + err.Error()}
+			}
+		}
+		_, err := protodesc.FileOptions{AllowUnresolvable: flags&dvalFlagAllow != 0}.New(set.File[len(set.File)-1], reg)
+		if err != nil {
+			return dvalOutcome{"err", err.Error()}
+		}
+		return dvalOutcome{"ok", ""}
+	}
 	var p *descriptorpb.FileDescriptorProto
 	if flags&dvalFlagNilFile == 0 {
 		p = &descriptorpb.FileDescriptorProto{}
